@@ -371,6 +371,18 @@ impl Quantity {
         }
     }
 
+    /// `Err` if the exponents of equal unit factors cannot be merged without overflow:
+    /// `(m/cm)^(2^126) * (m/cm)^(2^126)`. Units are canonicalized lazily (in comparisons,
+    /// conversions, simplification) with unchecked arithmetic, so products and quotients are
+    /// checked once, when they are formed.
+    pub fn with_checked_unit(self) -> Result<Self> {
+        if self.unit.try_canonicalized().is_none() {
+            Err(QuantityError::ExponentOverflow)
+        } else {
+            Ok(self)
+        }
+    }
+
     pub fn checked_div(self, other: Self) -> Option<Self> {
         if other.is_zero() {
             None
